@@ -1467,6 +1467,14 @@ pub fn run_trace(
     } else {
         "runs.faulted"
     });
+    for sgy in &trace.surgery {
+        // serde tag of the variant ("kind": "...")
+        if let Ok(serde_json::Value::Object(m)) = serde_json::to_value(sgy) {
+            if let Some(k) = m.get("kind").and_then(|k| k.as_str()) {
+                stats.bump(&format!("surgery.{}", k));
+            }
+        }
+    }
     for (f, a) in trace.faults.iter().zip(&prepared.applied) {
         stats.bump(&format!("fault.scheduled.{}", f.kind()));
         if *a {
@@ -1613,7 +1621,14 @@ pub fn run_trace(
         }
 
         // ---- oracle 1b (C01/C02): CPU time out of proportion (compute-only loops)
-        let cpu_limit = CPU_BASE_US + CPU_PER_BYTE_US * (env.font_len as u64 + op.arg_len() as u64);
+        // Shaping is quadratic in the length of the glyph run by design (element-wise insertion,
+        // backward search for the base of every mark): the allowance is 0.1 us per pair of
+        // glyphs of the returned run (a run the library lets grow without bound still ends in
+        // the heap budget or the watchdog).
+        let run_len = extra.shape.as_ref().map(|sf| sf.len as u64).unwrap_or(0);
+        let cpu_limit = CPU_BASE_US
+            + CPU_PER_BYTE_US * (env.font_len as u64 + op.arg_len() as u64)
+            + run_len.saturating_mul(run_len) / 10;
         if result.is_ok() && cpu_us > cpu_limit {
             let v = Violation {
                 property: owner_of(op).to_string(),
